@@ -34,6 +34,7 @@ EPOCH = datetime.datetime(1970, 1, 1)
 UTC = datetime.timezone.utc
 DAYS = ["MO", "TU", "WE", "TH", "FR", "SA", "SU"]
 LIMIT = int((datetime.datetime(2037, 1, 1) - EPOCH).total_seconds())
+LIMIT_LOCAL = int((datetime.datetime(2038, 12, 1) - EPOCH).total_seconds())   # onsets compared up to here (horizon 2038-12-31 minus a month)
 
 
 def secs(dt):
@@ -132,7 +133,14 @@ def gen_obs(rng, kind, frm, to, name):
         rule = f"FREQ=YEARLY;BYMONTH={mo};BYDAY={n}{DAYS[wd]}"
         if mode == "rrule_until":
             uy = y + rng.randrange(1, 12)      # UNTIL before DTSTART is not a well-formed rule (RFC 5545 3.3.10): never generated
-            rule += f";UNTIL={uy}{rng.randrange(1, 13):02}{rng.randrange(1, 29):02}T{rng.randrange(24):02}0000Z"
+            if rng.random() < 0.5:
+                rule += f";UNTIL={uy}{rng.randrange(1, 13):02}{rng.randrange(1, 29):02}T{rng.randrange(24):02}0000Z"
+            else:
+                # the usual way producers write it: UNTIL = the last onset as a UTC instant (or a little around it)
+                last = list(dateutil.rrule.rrule(dateutil.rrule.YEARLY, dtstart=D(uy, 1, 1, hh, mi), bymonth=mo,
+                                                 byweekday=dateutil.rrule.weekdays[wd](n), count=1))[0]
+                u = last - datetime.timedelta(seconds=frm) + datetime.timedelta(seconds=rng.choice([0, 0, 3600, 3 * 3600, -1, 1]))
+                rule += ";UNTIL=" + u.strftime("%Y%m%dT%H%M%SZ")
         elif mode == "rrule_count":
             rule += f";COUNT={rng.randrange(1, 9)}"
         o["rrule"] = rule
@@ -189,6 +197,81 @@ def gen_vtz(rng, i):
         b["dtstart"] = a["dtstart"] + datetime.timedelta(minutes=rng.choice([10, 30, 60]))
         b["frm"] = min(a["frm"] + rng.choice([3600, 7200, 10800]), 14 * 3600)
     return vtz_text(f"X-GEN-{i}", obs)
+
+
+# ---------------------------------------------------------------------------- independent onset oracle
+MISREAD = {}      # VTIMEZONE text -> UTC instants of onsets on which "UNTIL as local time" and "UNTIL as UTC" disagree
+
+
+def expected_onsets(text):
+    """per STANDARD/DAYLIGHT block of the text, in order: the local onsets RFC 5545 assigns to it (seconds since the epoch,
+    wall clock), computed with calendar arithmetic only -- or None where the block is outside the yearly nth-weekday
+    family.  UNTIL is a UTC instant compared with onset - TZOFFSETFROM; an unbounded rule ends with 2038 (the providers'
+    documented horizon, fix_rrule_until)."""
+    import calendar
+    import re
+    out = []
+    for blk in re.findall(r"BEGIN:(?:STANDARD|DAYLIGHT)\r?\n(.*?)END:(?:STANDARD|DAYLIGHT)", text, re.S):
+        props = {}
+        for ln in blk.replace("\r\n", "\n").split("\n"):
+            if ":" in ln:
+                k, v = ln.split(":", 1)
+                props.setdefault(k.split(";")[0].upper(), []).append(v)
+        try:
+            ds = datetime.datetime.strptime(props["DTSTART"][0], "%Y%m%dT%H%M%S")
+            fo = props["TZOFFSETFROM"][0]
+            frm = (1 if fo[0] == "+" else -1) * (int(fo[1:3]) * 3600 + int(fo[3:5]) * 60 + (int(fo[5:7]) if len(fo) > 5 else 0))
+        except Exception:  # noqa: BLE001
+            out.append(None)
+            continue
+        if frm % 60 or "RDATE" in props and "RRULE" in props or len(props.get("RRULE", [])) > 1:
+            out.append(None)
+            continue
+        if "RRULE" not in props:
+            if "RDATE" in props:
+                out.append(None)          # RDATE lists are read by the value parser: compared through the tree elsewhere
+            else:
+                out.append([secs(ds)])
+            continue
+        parts = dict(p.split("=", 1) for p in props["RRULE"][0].split(";") if "=" in p)
+        m = re.fullmatch(r"([+-]?\d)(SU|MO|TU|WE|TH|FR|SA)", parts.get("BYDAY", ""))
+        if parts.get("FREQ") != "YEARLY" or not m or not parts.get("BYMONTH", "").isdigit() or \
+                set(parts) - {"FREQ", "BYMONTH", "BYDAY", "UNTIL", "COUNT"}:
+            out.append(None)
+            continue
+        n, wd, mo = int(m.group(1)), ["MO", "TU", "WE", "TH", "FR", "SA", "SU"].index(m.group(2)), int(parts["BYMONTH"])
+        until = None
+        if "UNTIL" in parts:
+            if not parts["UNTIL"].endswith("Z"):
+                out.append(None)
+                continue
+            until = datetime.datetime.strptime(parts["UNTIL"], "%Y%m%dT%H%M%SZ")
+        elif "COUNT" not in parts:
+            until = datetime.datetime(2038, 12, 31)
+        ons = []
+        MISREAD.setdefault(text, [])
+        for y in range(ds.year, 2041):
+            days = [d for wk in calendar.monthcalendar(y, mo) for i, d in enumerate(wk) if d and i == wd]
+            if abs(n) > len(days) or n == 0:
+                continue
+            t = datetime.datetime(y, mo, days[n - 1] if n > 0 else days[n], ds.hour, ds.minute, ds.second)
+            if t < ds:
+                continue
+            if "UNTIL" in parts and (t <= until) != (t - datetime.timedelta(seconds=frm) <= until):
+                # an onset that a reading of UNTIL as LOCAL time keeps or drops differently (finding C12-F8)
+                MISREAD[text].append(secs(t) - frm)
+            if until is not None and t - datetime.timedelta(seconds=frm) > until:
+                if "UNTIL" in parts and t > until + datetime.timedelta(days=2):
+                    break
+                continue
+            ons.append(secs(t))
+            if "COUNT" in parts and len(ons) >= int(parts["COUNT"]):
+                break
+        if not ons or ons[0] != secs(ds):
+            out.append(None)              # DTSTART is not an instance of its own rule: outside the family
+            continue
+        out.append(ons)
+    return out
 
 
 # ---------------------------------------------------------------------------- implementation side
@@ -433,6 +516,15 @@ def run(ctx, res):
         res.dist(kind)
         tzc = Timezone.from_ical(text)
         obs = wire_obs(tzc)
+        # the onsets the implementation expands from RRULE / DTSTART against the independent calendar arithmetic
+        for oi, (o, want) in enumerate(zip(obs, expected_onsets(text))):
+            if want is not None:
+                res.evaluations += 1
+                if [x for x in o[1] if x < LIMIT_LOCAL] != [x for x in want if x < LIMIT_LOCAL]:
+                    res.fail("C12 onsets: the recurrence set expanded from an observance's RRULE differs from the RFC reading "
+                             "(UNTIL is a UTC instant, compared with onset - TZOFFSETFROM)", text,
+                             observed=[str(EPOCH + datetime.timedelta(seconds=x)) for x in o[1]][-4:],
+                             expected=[str(EPOCH + datetime.timedelta(seconds=x)) for x in want][-4:])
         ts, utcs = instants(obs)
         row = dict(kind=kind, text=text, obs=obs, ts=ts, utcs=utcs, trans=impl_transitions(tzc), prov={})
         for provider in ("pytz", "zoneinfo"):
@@ -504,7 +596,9 @@ def run(ctx, res):
                 else:
                     # dateutil has no model: deviations are accepted only close to an onset, or where the definition
                     # is itself outside the pytz guard (order crossing, DAYLIGHT only)
-                    if "C12-F6" in known and (near or not order or not has_std):
+                    if "C12-F8" in known and any(u <= s for u in MISREAD.get(r["text"], [])):
+                        res.known("C12-F8", {"vtimezone": r["text"], "instant": s, "got": g, "rfc": want}, known["C12-F8"]["summary"])
+                    elif "C12-F6" in known and (near or not order or not has_std):
                         res.known("C12-F6", {"vtimezone": r["text"], "instant": s, "got": g, "rfc": want},
                                   known["C12-F6"]["summary"])
                     elif "C12-F7" in known and g[:1] == ["err"] and big_jump(r["text"]):
